@@ -255,4 +255,21 @@ func init() {
 		}
 		return p
 	}
+
+	planTable["C34"] = func(q bool) *Plan {
+		p := &Plan{Level: "model_checking", Engine: "E-sched",
+			Text:      "y.WaterMark alone, with every channel statement and every atomic operation of watermark.go as a schedule point: Begin issued in index order, Done in any order, one or two WaitForMark callers, from a fresh mark and from one that already advanced (readMark pattern); after EVERY step DoneUntil is monotone and never covers an index that was begun and not yet done; WaitForMark(j) returns only with DoneUntil >= j; at quiescence DoneUntil equals the largest fully-done index and no waiter is stranded (a stuck waiter is a deadlock of the execution). Oracle level: the C03 commit/reader interleavings, where a reader's snapshot must contain every commit at or below its read timestamp.",
+			Note:      "Bounded model: 2-3 indices, 1-2 waiters; sequentially consistent interleavings of channel and atomic operations.",
+			Technique: "stateless model checking at channel/atomic-operation granularity (controlled scheduler, preemption-bounded DFS) with per-step invariants",
+			Rule:      "6 cases (thread layout x initial mark) x schedules up to the bound"}
+		wm := func(bound int, budget float64) Stage {
+			return Stage{Binary: "badger.fine", Scenario: "c34wm", Bound: bound, NShard: 6, BudgetS: budget, Params: prm("cases", 6)}
+		}
+		if q {
+			p.Stages = []Stage{wm(1, 30), wm(2, 45), sched("c03a", 1, 16, 25, nil)}
+		} else {
+			p.Stages = []Stage{wm(2, 300), wm(3, 900), wm(4, 1200), sched("c03a", 2, 16, 600, nil)}
+		}
+		return p
+	}
 }
